@@ -200,7 +200,7 @@ def fft_state_correspondence(ctx, rng):
     lines, exp = [], []
     for _ in range(ctx.budget(30, 300)):
         fam = str(rng.choice(["trad", "saz", "diff", "psd"]))
-        L = int(rng.integers(20, 300))
+        L = int(rng.integers(20, 300)) if rng.random() < 0.8 else int(rng.choice([32767, 32768, 32769, 65536, 65537]))
         fft = [None, dict(n=None), dict(n=int(rng.choice([L, 1000, 32768, 40000, 65536, 70000])))][int(rng.integers(0, 3))]
         rec = pg.gen_record(rng, n=L, dt=0.01, scale=1.0)
         c = dict(family=fam, method="geometric_mean", azimuth=10.0, smoothing=dict(operator="konno_and_ohmachi", bandwidth=40.0, center_frequencies_in_hz=[2.0, 5.0, 10.0]),
@@ -229,8 +229,18 @@ def run(ctx):
     witness_c09e(ctx)
     fft_state_correspondence(ctx, rng)
     n = ctx.budget(48, 600)
-    for i in range(n):
-        c = gen_case(rng, i)
+    # recordings whose length sits at a power of two (2**15 and 2**16, one below, one above): the FFT length chosen for an unset fft_settings must hold
+    # the whole record and be the length a second call arrives at (seed C09-V of round 9 chose 2**15 for a record of 2**15 + 1 samples)
+    boundary = [32767, 32768, 32769, 65535, 65536, 65537]
+    nb = ctx.budget(3, 12)
+    for i in range(n + nb):
+        c = gen_case(rng, i if i < n else int(rng.choice([0, 1, 4, 5])))
+        if i >= n and c["smoothing"] is not None:
+            Lb = boundary[(ctx.seed + i) % len(boundary)]
+            c["records"] = [pg.gen_record(rng, n=Lb, dt=c["records"][0]["dt"], deg=0.0)]
+            c["fft"] = None
+            c["smoothing"] = dict(c["smoothing"], center_frequencies_in_hz=c["smoothing"]["center_frequencies_in_hz"][:4])
+            ctx.count("boundary_length:%d" % Lb)
         if c["smoothing"] is None:
             continue
         nv = len(ctx.violations) + len(ctx.known_hits)
